@@ -502,11 +502,23 @@ def _propval(name, v):
     return int(v)
 
 
-def _do(s, opf, extra):
+def _do(s, opf, extra, operands):
     """Run one op on the real object; returns the canonical result string."""
     f = opf.split(" ")
     op = f[0]
-    B = lambda x: Bits(bin=unwire(x)) if unwire(x) else Bits()
+
+    def B(x):
+        """The operand: a Bits, or (chosen by the op text) a stream with a position of its own, which must not move."""
+        b = unwire(x)
+        k = (len(opf) + sum(map(ord, opf))) % 4
+        if k == 1:
+            o = ConstBitStream(bin=b, pos=len(b) // 2) if b else ConstBitStream()
+        elif k == 2:
+            o = BitStream(bin=b, pos=len(b)) if b else BitStream()
+        else:
+            return Bits(bin=b) if b else Bits()
+        operands.append((o, o.pos))
+        return o
     if op == "read":
         return _fmt(s.read(_tok_arg(f[1])))
     if op == "peek":
@@ -705,6 +717,8 @@ def execute(line):
     extra = {}
     if route == "ctor":
         s = cls(bin=bits, pos=pos) if bits else cls(pos=pos)
+    elif route == "neg":                                          # a negative initial pos counts from the end
+        s = cls(bin=bits, pos=pos - len(bits)) if pos < len(bits) else cls(bin=bits, pos=pos) if bits else cls(pos=pos)
     elif route == "auto":
         s = cls("0b" + bits if bits else "", pos=pos)
     else:
@@ -712,12 +726,16 @@ def execute(line):
         s.pos = pos
     obs, before = [], bits
     for opf in ops:
+        operands = []
         try:
-            res = _do(s, opf, extra)
+            res = _do(s, opf, extra, operands)
         except RecursionError:
             res = "Internal:RecursionError"
         except Exception as e:                                   # noqa: BLE001 — the exception class is the observable
             res = _err(e)
+        for o, p in operands:
+            if o is not s and o.pos != p:
+                extra.setdefault("operand", []).append(f"{opf}: the operand's own pos moved {p} -> {o.pos}")
         now = s.bin
         obs.append(f"{res} {s.pos} {'=' if now == before else wire(now)}")
         before = now
@@ -767,6 +785,8 @@ def oracle(line, out, extra):
         return r[1]
     if extra.get("twin"):
         return "a non-stream result depends on pos: " + extra["twin"][0]
+    if extra.get("operand"):
+        return "an operation moved the position of its operand: " + extra["operand"][0]
     return None
 
 
@@ -854,7 +874,7 @@ def _rand_tok(rng, rem):
     if r < 0.30:
         return rng.choice(VAR)
     if r < 0.36:
-        return "bool"
+        return "bool" if rem >= 1 or rng.random() < 0.1 else "bin:1"
     k = rng.choice(KINDS)
     if r < 0.50:
         return k                                                  # no length: everything that is left
@@ -974,7 +994,8 @@ def _rand_op(rng, st):
                            f"add {wire(rand_bits(rng, rng.randint(0, 9)))}", f"radd {wire(rand_bits(rng, rng.randint(0, 9)))}", "addself",
                            f"mul {rng.randint(-1, 3)}", f"rmul {rng.randint(-1, 3)}", "inv", f"lshift {rng.randint(-1, n + 1)}",
                            f"rshift {rng.randint(-1, n + 1)}", f"and {wire(o)}", f"or {wire(o)}", f"xor {wire(o)}",
-                           "andself", "andself", "orself", "orself", "xorself"])
+                           "andself" if mut or pos == 0 or rng.random() < 0.25 else "xorself",
+                           "orself" if mut or pos == 0 or rng.random() < 0.25 else "xorself", "xorself"])
     if fam < 0.70 or not mut:
         return "q " + rng.choice([f"eq {wire(bits if rng.random() < 0.6 else rand_bits(rng, n))}", "hash", "len",
                                   f"contains {wire(_pattern(rng, bits))}", "count", "uint"])
@@ -1023,6 +1044,10 @@ def _rand_op(rng, st):
         if rng.random() < 0.25:
             return "setuint " + str(rng.choice([0, 1, (1 << n) - 1 if n else 0, 1 << n, -1, rng.getrandbits(max(n, 1))]))
         name, v, enc = _prop_assign(rng, n)
+        for _ in range(4):
+            if enc == "ERR" or len(unwire(enc)) >= pos or rng.random() < 0.15:
+                break
+            name, v, enc = _prop_assign(rng, n)
         return f"setprop {name} {v} {enc}"
     if r < 0.88:
         return f"imul {rng.choice([-1, 0, 1, 2, 3]) if n <= 40 else rng.choice([0, 1, 2])}"
@@ -1047,7 +1072,7 @@ def _history(rng, maxlen=25):
         ops.append(opf)
         nbits, allowed = ref_step(st, opf)
         st = (nbits, allowed[0][1], st[2])
-    return _case(cls, bits, pos, rng.choice(["ctor", "ctor", "attr", "auto"]), ops)
+    return _case(cls, bits, pos, rng.choice(["ctor", "ctor", "attr", "auto", "neg"]), ops)
 
 
 def gen(rng, tier):
@@ -1092,7 +1117,7 @@ def gen(rng, tier):
                         continue
                     yield _case(cls, b, pos, "ctor", [opf, "q len", "peek bin"])
     # 4. random histories
-    for _ in range(150000 if big else 9000):
+    for _ in range(200000 if big else 24000):
         yield _history(rng)
     # 5. codes cut short by one to three bits, read through every route
     for _ in range(6000 if big else 500):
